@@ -206,6 +206,7 @@ Definition layout_check (p : policy) (is_debug : bool) : bool :=
   let m := machine_of p is_debug in
   let la := label_addr (labels m) in
   (len (progmem m) <=? usize_max)
+  && forallb (fun i => match i with I_FactCount l => (l <=? i64_max)%Z | _ => true end) (progmem m)
   && forallb (fun d =>
        match find (fun d' => String.eqb (fn_name d') (fn_name d)) (p_funs p) with
        | Some d' => code_at_b (progmem m) (la (fun_label (fn_name d)))
@@ -231,14 +232,19 @@ Lemma layout_check_sound p is_debug : layout_check p is_debug = true ->
   let m := machine_of p is_debug in
   let la := label_addr (labels m) in
   len (progmem m) <= usize_max
+  /\ Forall instr_repr (progmem m)
   /\ (forall f d, find (fun d => String.eqb (fn_name d) f) (p_funs p) = Some d ->
         at_pc m (la (fun_label f)) (d_function p is_debug la (la (fun_label f)) d) /\ fr_stmts (fn_body d) = true)
   /\ (forall f d, find (fun d => String.eqb (ff_name d) f) (p_finfuns p) = Some d ->
         at_pc m (la (fun_label f)) (d_finish_function p is_debug la (la (fun_label f)) d) /\ fr_stmts (ff_body d) = true).
 Proof.
   intros H m la. unfold layout_check in H. fold m in H. fold la in H.
-  apply andb_prop in H. destruct H as [H H3]. apply andb_prop in H. destruct H as [H1 H2].
+  apply andb_prop in H. destruct H as [H H3]. apply andb_prop in H. destruct H as [H H2].
+  apply andb_prop in H. destruct H as [H1 H0].
   split; [lia|]. split.
+  { rewrite Forall_forall. rewrite forallb_forall in H0. intros i Hi. specialize (H0 i Hi).
+    destruct i; cbn; auto. lia. }
+  split.
   - intros f d Hf. destruct (find_name_in fn_name _ _ _ Hf) as [Hin Hn]. subst f.
     rewrite forallb_forall in H2. specialize (H2 d Hin). rewrite Hf in H2.
     apply andb_prop in H2. destruct H2 as [Hc Hfr]. split; [apply code_at_b_sound; exact Hc|exact Hfr].
@@ -246,3 +252,34 @@ Proof.
     rewrite forallb_forall in H3. specialize (H3 d Hin). rewrite Hf in H3.
     apply andb_prop in H3. destruct H3 as [Hc Hfr]. split; [apply code_at_b_sound; exact Hc|exact Hfr].
 Qed.
+
+(** * C22: the compiled function computes what the reference semantics defines *)
+Definition compile_correct_stmt : Prop :=
+  forall (St : Type) (dbg : bool) (lio : lang_io St) (p : policy) (is_debug : bool),
+    layout_check p is_debug = true -> globals_ok p = true ->
+    let m := machine_of p is_debug in
+    compile_correct_fun_stmt dbg lio p is_debug m (label_addr (labels m)).
+
+Lemma compile_correct_proof : compile_correct_stmt.
+Proof.
+  intros St dbg lio p is_debug Hl Hg m.
+  destruct (layout_check_sound p is_debug Hl) as (Hlen & Hrep & Hf & Hff). fold m in Hlen, Hrep, Hf, Hff.
+  assert (Hcm : codemap m = None) by (unfold m, machine_of; destruct (compile_direct p is_debug); reflexivity).
+  assert (Hgl : forall x, option_map const_to_value (amap_get x (globals m)) = amap_get x (globals_of p))
+    by (intros x; apply machine_globals; exact Hg).
+  assert (Hsd : forall n, struct_def m n = option_map (fun fs => mkStructDef n (map field_of fs)) (struct_fields_of p n))
+    by (intros n; apply machine_struct_defs).
+  apply compile_correct_fun_proof; auto.
+Qed.
+
+(** Non-vacuity: a concrete two-function policy (calls, match with bindings, if, check, return,
+    blocks, struct literals) satisfies the side conditions, and its entry function returns a value. *)
+Local Open Scope string_scope.
+Definition ex_policy : policy :=
+  (mkPolicy [("E0", ["A"; "B"; "C"]); ("E1", ["X"; "Y"])] [("S0", [("a", TK_Int); ("b", TK_Bool)]); ("S0r", [("b", TK_Bool); ("a", TK_Int)]); ("T0", [("a", TK_Int)]); ("S1", [("o", (TK_Optional TK_Int)); ("s", (TK_Struct "S0")); ("e", (TK_Enum "E0")); ("t", TK_String)])] [] [] [] [(mkFun "f0" [("p1", (TK_Optional TK_Bool))] TK_String (SCons (SLet "v2" (EStr "ab")) (SCons (SReturn (EMatch (EIf (EBool true) (EBlock (SCons (SLet "v3" (EWrap W_Some (EStruct "S0" (FCons "a" (EInt (1)%Z) (FCons "b" (EBool true) FNil))))) SNil) (EWrap W_Some (EInt (7)%Z))) (EBlock (SCons (SLet "v4" ENone) SNil) (EWrap W_Some (EInt (-2)%Z)))) (EACons (PVals [(PBind W_Some "m5")]) (EMatch ENone (EACons (PVals [(PLit LNone)]) (EStr "a") (EACons (PVals [(PBind W_Some "m6")]) (EVar "v2") EANil))) (EACons PDefault (EStr "") EANil)))) SNil))); (mkFun "main" [("p7", TK_Id); ("p8", (TK_Result TK_Bool TK_Bool))] (TK_Optional (TK_Struct "S0")) (SCons (SMatch (ECall "f0" (ECons ENone ENil)) (SACons (PVals [(PLit (LStr "a")); (PLit (LStr " "))]) (SCons (SCheck (EBool false) (EReturn (EWrap W_Some (EStruct "S0" (FCons "a" (EInt (1)%Z) (FCons "b" (EBool false) FNil)))))) SNil) (SACons PDefault (SCons (SReturn (EIf (EBool true) (EBlock SNil ENone) (EBlock SNil ENone))) SNil) SANil))) (SCons (SReturn (EBlock (SCons (SLet "v10" (EIf (EBool true) (EBlock (SCons (SLet "v9" (EStruct "S1" (FCons "o" (EWrap W_Some (EInt (1)%Z)) (FCons "s" (EStruct "S0" (FCons "a" (EInt (-9223372036854775807)%Z) (FCons "b" (EBool true) FNil))) (FCons "e" (EEnum "E0" "A") (FCons "t" (EStr "x_y") FNil)))))) SNil) (EInt (2)%Z)) (EBlock SNil (EInt (9223372036854775806)%Z)))) (SCons (SLet "v11" (EWrap W_Ok (EBool false))) SNil)) (EWrap W_Some (EStruct "S0" (FCons "a" (EVar "v10") (FCons "b" (EBool true) FNil)))))) SNil)))] [] [] [] []).
+Definition ex_args : list Value := [(V_Id 0%N); (V_Result (ROk (V_Bool true)))].
+Example compile_correct_example :
+  layout_check ex_policy true = true /\ globals_ok ex_policy = true
+  /\ exists w', Lang.call_fun logio ex_policy true 20 "main" ex_args (world0 0 [] (action_ctx "main"))
+                = OVal (V_Option (Some (V_Struct (mkStruct "S0" [("a", V_Int 1%Z); ("b", V_Bool false)])))) w'.
+Proof. split; [vm_compute; reflexivity|]. split; [vm_compute; reflexivity|]. eexists. vm_compute. reflexivity. Qed.
